@@ -7,7 +7,9 @@ package art
 
 import (
 	"math"
+	"os"
 	"runtime"
+	"sync"
 )
 
 type vpTapeEntry struct {
@@ -214,3 +216,22 @@ func vpNoGrowth(before, after, slack uint64) bool { return after <= before+slack
 
 // vpGCNative: native replays of C18 force collections between operations.
 var vpGCNative = true
+
+// ---- C16 native confirmation: the two sides run in goroutines under the race detector ----
+
+// vpRaceNative: true only in a native replay started with VERIF_RACE=1 (the executor answers false).
+func vpRaceNative() bool { return os.Getenv("VERIF_RACE") != "" }
+
+// vpRunConcurrently: executor: fa then fb; native race replay: both at once, repeated to give the detector a chance.
+func vpRunConcurrently(fa, fb func()) {
+	if !vpRaceNative() {
+		fa()
+		fb()
+		return
+	}
+	var wg sync.WaitGroup
+	wg.Add(2)
+	go func() { defer wg.Done(); fa() }()
+	go func() { defer wg.Done(); fb() }()
+	wg.Wait()
+}
